@@ -176,6 +176,10 @@ class TyV(ZV):
             return self.kind_in(METAMC + DEP)
         if name == "__origin__":
             return self.kind_in(["Alias", "Equals", "FuncDep", "Product"])
+        if name == "__args__":
+            return self.kind_in(CONTAINER + ["Equals", "FuncDep", "Exactly", "Strict", "HasMethod", "ClassCheck"])
+        if name == "with_bound":
+            return self.kind_in(DEP)
         if _dep_class_const(name) is not None:
             return self.kind_in(DEP)
         raise OutOfSubset(f"hasattr(type, {name!r})")
@@ -192,6 +196,14 @@ class TyV(ZV):
         if name == "parameters":
             I.require(self.kind_in(DEP), "attr.parameters.defined", exc="AttributeError")
             return ParamSeq(self)
+        if name == "__origin__":
+            I.require(self.kind_in(["Alias", "Equals", "FuncDep", "Product"]), "attr.__origin__.defined", exc="AttributeError")
+            if I.branch(kind(self.t) == K["Alias"]):
+                return TyV(base(self.t))
+            return None  # ParametrizedDependentType sets __origin__ = None
+        if name == "__args__":
+            I.require(self.kind_in(CONTAINER + ["Equals", "FuncDep", "Exactly", "Strict", "HasMethod", "ClassCheck"]), "attr.__args__.defined", exc="AttributeError")
+            return SymSeq(nargs(self.t), lambda i: TyV(arg(self.t, i)), "args")
         consts = _dep_class_const(name)
         if consts is not None:
             # class-level constants of DependentType and its subclasses (exclusive_type, keyable_type, ...), read from the source
